@@ -576,6 +576,13 @@ fn real_main() {
         let (ha, hb) = real_hunks(&c.base, &c.ours, &c.theirs);
         check_contract(&mut rep, "ours", &c.base, &c.ours, &ha);
         check_contract(&mut rep, "theirs", &c.base, &c.theirs, &hb);
+        if c.ours == c.theirs && ha != hb {
+            // `same_change` assumes that the diff is a function of its two inputs
+            rep.outside_domain(&format!(
+                "diff contract violated by imara-diff: identical sides, different hunk lists: base={:?} side={:?} {} vs {}",
+                c.base.as_bstr(), c.ours.as_bstr(), hunks_token(&ha), hunks_token(&hb)));
+            rep.bucket("contract:violated");
+        }
         rep.bucket(&format!("hunks:ours={} theirs={}", ha.len().min(3), hb.len().min(3)));
         // 6 option sets per triple: one of each keep style with a random marker size, and the three resolutions
         for st in [ConflictStyle::Merge, ConflictStyle::Diff3, ConflictStyle::ZealousDiff3] {
